@@ -51,3 +51,4 @@ impl<K: Clone+ Eq + Hash, V: Clone> OrderedMap<K, V> {
         *self.map.get_mut(k).unwrap() = new_value;
     }
 }
+#[cfg(rjrssync_verif)] pub(crate) mod verif_hooks { include!(concat!(env!("RJRSSYNC_VERIF_HARNESS"), "/hooks_ordered_map.rs")); }
